@@ -75,6 +75,25 @@ def check_sizeof_def(ctx, fi, cls, rule="C05.R1"):
     return len(verdict)
 
 
+def probe_specificity(ctx, rule):
+    M = ctx.model
+    # the size probe the lazy classes use is never less specific than the class's own size: the _actualsize a class resolves to is its own,
+    # or is defined at or below the class that defines its _sizeof, or is Construct's default (which asks self._sizeof)
+    n4 = 0
+    for ci in M.construct_classes():
+        if ci.relpath.endswith("debug.py"):
+            continue
+        fa, fs = M.resolve(ci.name, "_actualsize"), M.resolve(ci.name, "_sizeof")
+        if fa is None or fs is None or fa.cls is None or fs.cls is None:
+            continue
+        mro = [c.name for c in ci.mro]
+        ia, isz = mro.index(fa.cls.name), mro.index(fs.cls.name)
+        ok = fa.cls.name == "Construct" or ia <= isz
+        n4 += 1
+        ctx.ob(rule, ci.name, ok, "%s: _actualsize comes from %s, _sizeof from %s -- a probe inherited from above the class that defines the size would measure something else (e.g. only the inner construct)" % (
+            ci.name, fa.cls.name, fs.cls.name), key="%s probe specificity" % ci.name, loc=ci.relpath)
+
+
 def data_dependent(ctx, cls):
     """Reason why the parse amount of `cls` depends on data, or None."""
     fi, paths = method_paths(ctx, cls, "_parse", required=False)
@@ -160,21 +179,7 @@ def run(ctx):
     subs = [e for e in uniq_events(paths, "SUB") if e["m"] == "_sizeof"]
     ok = len(subs) == 1 and subs[0]["target"] == SELF and subs[0]["path"] == N.const("(sizeof)") and all(p.retval == subs[0]["res"] for p in paths if p.returns)
     ctx.ob("C05.R4", fi, ok, "sizeof() returns _sizeof(fresh context, '(sizeof)')", key="entry")
-    # the size probe the lazy classes use is never less specific than the class's own size: the _actualsize a class resolves to is its own,
-    # or is defined at or below the class that defines its _sizeof, or is Construct's default (which asks self._sizeof)
-    n4 = 0
-    for ci in M.construct_classes():
-        if ci.relpath.endswith("debug.py"):
-            continue
-        fa, fs = M.resolve(ci.name, "_actualsize"), M.resolve(ci.name, "_sizeof")
-        if fa is None or fs is None or fa.cls is None or fs.cls is None:
-            continue
-        mro = [c.name for c in ci.mro]
-        ia, isz = mro.index(fa.cls.name), mro.index(fs.cls.name)
-        ok = fa.cls.name == "Construct" or ia <= isz
-        n4 += 1
-        ctx.ob("C05.R4", ci.name, ok, "%s: _actualsize comes from %s, _sizeof from %s -- a probe inherited from above the class that defines the size would measure something else (e.g. only the inner construct)" % (
-            ci.name, fa.cls.name, fs.cls.name), key="%s probe specificity" % ci.name, loc=ci.relpath)
+    probe_specificity(ctx, "C05.R4")
     ctx.floor("C05.R4", 3 + 60)
 
     # ---------------------------------------------------------------- R5 the size a transforming macro reports is the inner size through the unit ratio (shared with C10.R1/R2)
@@ -184,7 +189,9 @@ def run(ctx):
     C15.length_preserving(ctx, "C05.R5")      # ProcessXor / ProcessRotateLeft report the inner size: the transform must keep the byte count
     ctx.floor("C05.R5", 16)
     from . import C04
-    C04.shared_obligations(ctx, "C05.R6", {"Prefixed", "PrefixedArray", "Padded", "Aligned", "FixedSized", "Bytes", "Array", "Struct", "Sequence", "IfThenElse", "Switch", "Pointer", "Peek", "FormatField", "BytesInteger"})
+    C04.shared_obligations(ctx, "C05.R6", {"Prefixed", "PrefixedArray", "Padded", "Aligned", "FixedSized", "Bytes", "Array", "Struct", "Sequence", "IfThenElse", "Switch", "Pointer", "Peek", "FormatField", "BytesInteger"}, with_expressions=True)
+    from . import C10
+    C10.machinery(ctx, "C05.R6")      # Transformed reads its declared amount (0 included) / Restreamed always goes through the wrapper
     ctx.floor("C05.R6", 12)
 
     # R2 is produced by the position algebra
